@@ -169,9 +169,19 @@ func (e *env) runTxnInner(calls []Call) (string, string) {
 	}
 	aborted := false
 	var exp []expect
+	// what every handler was handed, by operation id: it must be the result Commit reports for that operation
+	handed := map[keyvalue.OpID]keyvalue.OpResult{}
 	handler := func(kind string) keyvalue.OpHandler {
 		return keyvalue.OpHandlerFunc(func(t keyvalue.Transaction, result keyvalue.OpResult) error {
+			handed[result.Op] = result
 			switch kind {
+			case "check":
+				// a handler that acts on what it is given: a failed operation makes it abort the transaction
+				if result.Err != nil {
+					_ = t.Abort()
+					return result.Err
+				}
+				return nil
 			case "err":
 				return errHandler
 			case "abort":
@@ -206,7 +216,7 @@ func (e *env) runTxnInner(calls []Call) (string, string) {
 			} else {
 				x.id = txn.GetHandler(c.Key, handler(c.Handler))
 			}
-			if !aborted && (c.Handler == "abort" || c.Handler == "abort+err") {
+			if !aborted && (c.Handler == "abort" || c.Handler == "abort+err" || (c.Handler == "check" && x.wantErr == "notexist")) {
 				aborted = true
 			}
 			exp = append(exp, x)
@@ -243,7 +253,7 @@ func (e *env) runTxnInner(calls []Call) (string, string) {
 			} else {
 				x.id = txn.SetHandler(c.Key, rec, contents, handler(c.Handler))
 			}
-			if !aborted && (c.Handler == "abort" || c.Handler == "abort+err") {
+			if !aborted && (c.Handler == "abort" || c.Handler == "abort+err" || (c.Handler == "check" && x.wantErr == "baddata")) {
 				aborted = true
 			}
 			exp = append(exp, x)
@@ -295,6 +305,11 @@ func (e *env) runTxnInner(calls []Call) (string, string) {
 			return "commit:op-id-reused", fmt.Sprintf("operation id %d was handed out twice (call %d %+v); calls %v", x.id, i, x.call, calls)
 		}
 		seen[x.id] = true
+		if h, ok := handed[x.id]; ok && (x.call.Handler == "ok" || x.call.Handler == "check" || x.call.Handler == "abort") && x.wantErr != "aborted" {
+			if (h.Err == nil) != (r.Err == nil) {
+				return "commit:handler-saw-different-result", fmt.Sprintf("call %d (%+v): the handler was handed Err=%v, Commit reports Err=%v for the same operation", i, x.call, h.Err, r.Err)
+			}
+		}
 		switch x.wantErr {
 		case "aborted":
 			if r.Err == nil {
@@ -370,7 +385,7 @@ func genCalls(t *rapid.T) []Call {
 		case 0, 1, 2, 3:
 			c := Call{K: "get", Key: rapid.SampledFrom(keys).Draw(t, "key")}
 			if rapid.Bool().Draw(t, "withHandler") {
-				c.Handler = rapid.SampledFrom([]string{"ok", "ok", "err", "abort", "abort+err"}).Draw(t, "handler")
+				c.Handler = rapid.SampledFrom([]string{"ok", "ok", "check", "check", "err", "abort", "abort+err"}).Draw(t, "handler")
 			}
 			calls = append(calls, c)
 		case 4, 5, 6, 7:
@@ -378,7 +393,7 @@ func genCalls(t *rapid.T) []Call {
 			c.Delete = rapid.IntRange(0, 4).Draw(t, "delete") == 0
 			c.BadData = !c.Delete && rapid.IntRange(0, 5).Draw(t, "baddata") == 0
 			if rapid.Bool().Draw(t, "withHandler") {
-				c.Handler = rapid.SampledFrom([]string{"ok", "ok", "err", "abort", "abort+err"}).Draw(t, "handler")
+				c.Handler = rapid.SampledFrom([]string{"ok", "ok", "check", "check", "err", "abort", "abort+err"}).Draw(t, "handler")
 			}
 			calls = append(calls, c)
 		default:
